@@ -8,7 +8,7 @@ continues PcProps/C16Safety.lean and C16Safety3.lean).  Only property theorems, 
   `thread.sum = (T) sum` of the UNSIGNED accumulator) and `lbTotalC` (`sum_ += thread.sum` in `int128_t`, final `(T) get_sum()`).
 * `PcProofs/SafetyHardEngine.lean`, `SafetyHardThread.lean`: checked = unchecked by the engine's own invariant
   (`phi[b] + count = φ(xpm, b−1) ≤ xpm < high ≤ z`).
-* `PcProofs/SafetyHardBound.lean`, `SafetyHardAbs.lean`: the absolute majorant of all hard leaves, `≤ Σ_{n ≤ N} ⌊x/n⌋ ≤ x·k` for
+* `PcProofs/SafetyHardBound.lean`, `SafetyHardAbs.lean`: the absolute majorant of all hard leaves, `≤ Σ_{a < n ≤ N} ⌊x/n⌋ ≤ x·(k − j)` for `2^j ≤ a + 1`,
   `N < 2^k` (`(b, m) ↦ p_b·m` is injective; dyadic harmonic bound) — additive over windows, so it bounds every chunk value and
   every partial sum of chunk values in ANY order of arrival.
 
@@ -20,10 +20,10 @@ continues PcProps/C16Safety.lean and C16Safety3.lean).  Only property theorems, 
 
 ## A / C (src/gourdon/AC.cpp) — `T` is UNSIGNED (`uint64_t` / `uint128_t`), converted to the signed return type at the end
 * `PcModel/SafetyAC.lean`: `wrapS N v` = what an `N`-bit unsigned accumulation of true value `v` becomes after the conversion.
-* `PcProofs/SafetyACAbs.lean`: every sum of `Cterm` over any set of levels (C1 and C2 kernels, signed terms) is within `±x·k`
-  (`z² < 2^k`); with `0 ≤ A ≤ 12x` (wp-safety3): `−x·k ≤ A + C ≤ 12x + x·k`.  No mirror of the kernels (see notes/wp-safety4.md).
+* `PcProofs/SafetyACAbs.lean`: every sum of `Cterm` over any set of levels (C1 and C2 kernels, signed terms) is within `±x·(k − j)`
+  (`2^j ≤ z + 1`, `z² < 2^k`); with `0 ≤ A ≤ 12x` (wp-safety3): `−x·(k−j) ≤ A + C ≤ 12x + x·(k−j)`.  No mirror of the kernels (see notes/wp-safety4.md).
 -/
-import PcProofs.SafetyHardAbs
+import PcProofs.SafetyHardRange
 import PcProofs.HardExamples
 import PcProofs.SafetyLeafOmp
 import PcProofs.SafetyACWrap
@@ -37,91 +37,94 @@ open scoped Nat.Prime
 /-- **`S2_hard_thread`: no `int64_t` local overflows, for EVERY work item** (hypotheses of C08's `hard_chunk_eq` plus
     `low + segment_size·segments ≤ 2^63 − 1`, which `LoadBalancerS2` must guarantee — F10 of wp-safety): `count`,
     `phi[b] + count`, `mu_m * phi_xpm`, `phi[b] += sieve.get_total_count()`, `low + segment_size` are value-preserving, and
-    `thread.sum = (T) sum` is value-preserving for the signed `T` with maximum `sMax` as soon as `max(z, y²) < 2^k`, `x·k ≤ sMax`.
+    `thread.sum = (T) sum` is value-preserving for the signed `T` with maximum `sMax` as soon as `2^j ≤ y + 1`, `max(z, y²) < 2^k`, `x·(k − j) ≤ sMax` (leaf products lie in `(y, max(z, y²)]`).
     The result is the chunk value `hardF`. -/
-theorem S2_hard_thread_no_overflow {σ : Type} {S : SieveOps σ} {e : Env} {P tmax x y z c low segments segSize k sMax : ℕ}
+theorem S2_hard_thread_no_overflow {σ : Type} {S : SieveOps σ} {e : Env} {P tmax x y z c low segments segSize j k sMax : ℕ}
     (hS : ∀ K, K ≤ π P → ∃ H : SieveSpec S K, H.segOK low segSize)
     (hE : EnvOK e P) (hP : P = min y (z / Nat.sqrt y)) (hF : FactorOK e tmax y)
     (hy : 1 ≤ y) (hyz : y ≤ z) (hzyx : z * y ≤ x) (hc : 4 ≤ c) (heven : 2 ∣ low)
     (hsz : 1 ≤ segSize) (hsegs : 1 ≤ segments) (hlow : low < z)
-    (hiM : low + segSize * segments ≤ 2 ^ 63 - 1) (hk : max z (y * y) < 2 ^ k) (hxk : x * k ≤ sMax) :
+    (hiM : low + segSize * segments ≤ 2 ^ 63 - 1) (hj : 2 ^ j ≤ y + 1) (hk : max z (y * y) < 2 ^ k)
+    (hxk : x * (k - j) ≤ sMax) :
     s2HardThreadC (2 ^ 63 - 1) sMax S e x y z c low segments segSize =
       .ok (hardF x y z c (low, chunkLimit low segments segSize z)) := by
   apply s2HardThreadC_eq hS hE hP hF hy hyz hzyx hc heven hsz hsegs hlow hiM
   have h1 := abs_hardF_le x y z c (low, chunkLimit low segments segSize z)
-  have h2 := absHardF_le (x := x) (c := c) hk (low, chunkLimit low segments segSize z)
+  have h2 := absHardF_le_range (x := x) (c := c) hj hk (low, chunkLimit low segments segSize z)
   have h3 := abs_le.1 (le_trans h1 h2)
   change fitsS sMax (hardF x y z c (low, chunkLimit low segments segSize z))
   unfold fitsS
-  have : ((x * k : ℕ) : ℤ) ≤ (sMax : ℤ) := by exact_mod_cast hxk
+  have : ((x * (k - j) : ℕ) : ℤ) ≤ (sMax : ℤ) := by exact_mod_cast hxk
   omega
 
-/-- **`D_thread`: the same for Gourdon's D** (hypotheses of `d_chunk_eq`; value condition `y·z < 2^k`, `x·k ≤ sMax`) -/
-theorem D_thread_no_overflow {σ : Type} {S : SieveOps σ} {e : Env} {tmax x xs y z k low segments segSize k' sMax : ℕ}
+/-- **`D_thread`: the same for Gourdon's D** (hypotheses of `d_chunk_eq`; value condition `2^j ≤ z + 1`, `y·z < 2^k`, `x·(k − j) ≤ sMax`) -/
+theorem D_thread_no_overflow {σ : Type} {S : SieveOps σ} {e : Env} {tmax x xs y z k low segments segSize j k' sMax : ℕ}
     (hS : ∀ K, K ≤ π y → ∃ H : SieveSpec S K, H.segOK low segSize)
     (hE : EnvOK e y) (hF : FactorDOK e tmax y z)
     (hyz : y ≤ z) (hsz : Nat.sqrt z ≤ y) (hxs : xs ≤ y) (hk : 4 ≤ k) (heven : 2 ∣ low)
     (hsize : 1 ≤ segSize) (hsegs : 1 ≤ segments) (hlow : low < x / z)
-    (hiM : low + segSize * segments ≤ 2 ^ 63 - 1) (hk' : y * z < 2 ^ k') (hxk : x * k' ≤ sMax) :
+    (hiM : low + segSize * segments ≤ 2 ^ 63 - 1) (hj : 2 ^ j ≤ z + 1) (hk' : y * z < 2 ^ k')
+    (hxk : x * (k' - j) ≤ sMax) :
     dThreadC (2 ^ 63 - 1) sMax S e x xs (x / z) y z k low segments segSize =
       .ok (dF x y z k xs (low, chunkLimit low segments segSize (x / z))) := by
   apply dThreadC_eq_gen hS hE hF hyz hsz hxs (Nat.div_mul_le_self x z) hk heven hsize hsegs hlow hiM
   have h1 := abs_dF_le x y z k xs (low, chunkLimit low segments segSize (x / z))
-  have h2 := absDF_le (x := x) (k := k) hxs hyz hk' (low, chunkLimit low segments segSize (x / z))
+  have h2 := absDF_le_range (x := x) (k := k) hxs hyz hj hk' (low, chunkLimit low segments segSize (x / z))
   have h3 := abs_le.1 (le_trans h1 h2)
   change fitsS sMax (dF x y z k xs (low, chunkLimit low segments segSize (x / z)))
   unfold fitsS
-  have : ((x * k' : ℕ) : ℤ) ≤ (sMax : ℤ) := by exact_mod_cast hxk
+  have : ((x * (k' - j) : ℕ) : ℤ) ≤ (sMax : ℤ) := by exact_mod_cast hxk
   omega
 
-/-- **every chunk value and the absolute majorant**: `|hardF w| ≤ x·k` for every window `w` (`max(z, y²) < 2^k`), and
-    `|dF w| ≤ x·k'` (`y·z < 2^k'`, `x⋆ ≤ y ≤ z`) — no hypothesis on `x`, `y`, `z` beyond these -/
-theorem hard_values_bounded (x y z c k : ℕ) (hk : max z (y * y) < 2 ^ k) (w : LB.Chunk) :
-    |hardF x y z c w| ≤ ((x * k : ℕ) : ℤ) :=
-  le_trans (abs_hardF_le x y z c w) (absHardF_le hk w)
+/-- **every chunk value and the absolute majorant**: `|hardF w| ≤ x·(k − j)` for every window `w` (`2^j ≤ y + 1`, `max(z, y²) < 2^k`), and
+    `|dF w| ≤ x·(k' − j)` (`2^j ≤ z + 1`, `y·z < 2^k'`, `x⋆ ≤ y ≤ z`) — no hypothesis on `x`, `y`, `z` beyond these -/
+theorem hard_values_bounded (x y z c j k : ℕ) (hj : 2 ^ j ≤ y + 1) (hk : max z (y * y) < 2 ^ k) (w : LB.Chunk) :
+    |hardF x y z c w| ≤ ((x * (k - j) : ℕ) : ℤ) :=
+  le_trans (abs_hardF_le x y z c w) (absHardF_le_range hj hk w)
 
-theorem D_values_bounded (x y z k xs k' : ℕ) (hxs : xs ≤ y) (hyz : y ≤ z) (hk : y * z < 2 ^ k') (w : LB.Chunk) :
-    |dF x y z k xs w| ≤ ((x * k' : ℕ) : ℤ) :=
-  le_trans (abs_dF_le x y z k xs w) (absDF_le hxs hyz hk w)
+theorem D_values_bounded (x y z k xs j k' : ℕ) (hxs : xs ≤ y) (hyz : y ≤ z) (hj : 2 ^ j ≤ z + 1) (hk : y * z < 2 ^ k')
+    (w : LB.Chunk) : |dF x y z k xs w| ≤ ((x * (k' - j) : ℕ) : ℤ) :=
+  le_trans (abs_dF_le x y z k xs w) (absDF_le_range hxs hyz hj hk w)
 
 /-- **`S2_hard_OpenMP`'s accumulation `sum_ += thread.sum` (LoadBalancerS2.cpp:112, `int128_t`) and the final `(T)` conversion,
     for EVERY order in which the threads report**: `cs` any chain of work items covering `[0, z)`, `order` any permutation of
-    it; if `max(z, y²) < 2^k`, `x·k ≤ aMax` (`aMax = 2^127 − 1`) and `x·k ≤ sMax`: no step overflows and the result is
+    it; if `2^j ≤ y + 1`, `max(z, y²) < 2^k`, `x·(k−j) ≤ aMax` (`aMax = 2^127 − 1`) and `x·(k−j) ≤ sMax`: no step overflows and the result is
     `hardF (0, z)` (`= Spec.S2_hard` by C08's `hard_window_full`) -/
-theorem S2_hard_sum_no_overflow (x y z c k aMax sMax : ℕ) (hk : max z (y * y) < 2 ^ k) (ha : x * k ≤ aMax) (hs : x * k ≤ sMax)
+theorem S2_hard_sum_no_overflow (x y z c j k aMax sMax : ℕ) (hj : 2 ^ j ≤ y + 1) (hk : max z (y * y) < 2 ^ k)
+    (ha : x * (k - j) ≤ aMax) (hs : x * (k - j) ≤ sMax)
     {cs order : List LB.Chunk} (hch : LB.Chain 0 z cs) (hperm : order.Perm cs) :
     lbTotalC aMax sMax (order.map (hardF x y z c)) = .ok (hardF x y z c (0, z)) := by
   refine lbTotalC_ok (hardF_additive x y z c) (absF_additive _ _ _ _) (abs_hardF_le x y z c) hch hperm ?_ ?_
-  · exact le_trans (absHardF_le hk (0, z)) (by exact_mod_cast ha)
-  · have h3 := abs_le.1 (hard_values_bounded x y z c k hk (0, z))
+  · exact le_trans (absHardF_le_range hj hk (0, z)) (by exact_mod_cast ha)
+  · have h3 := abs_le.1 (hard_values_bounded x y z c j k hj hk (0, z))
     unfold fitsS
-    have : ((x * k : ℕ) : ℤ) ≤ (sMax : ℤ) := by exact_mod_cast hs
+    have : ((x * (k - j) : ℕ) : ℤ) ≤ (sMax : ℤ) := by exact_mod_cast hs
     omega
 
 /-- **`D_OpenMP`'s accumulation**, same statement for the D-leaves (chain over `[0, x/z)`) -/
-theorem D_sum_no_overflow (x y z k xs k' aMax sMax : ℕ) (hxs : xs ≤ y) (hyz : y ≤ z) (hk : y * z < 2 ^ k')
-    (ha : x * k' ≤ aMax) (hs : x * k' ≤ sMax)
+theorem D_sum_no_overflow (x y z k xs j k' aMax sMax : ℕ) (hxs : xs ≤ y) (hyz : y ≤ z) (hj : 2 ^ j ≤ z + 1)
+    (hk : y * z < 2 ^ k') (ha : x * (k' - j) ≤ aMax) (hs : x * (k' - j) ≤ sMax)
     {cs order : List LB.Chunk} (hch : LB.Chain 0 (x / z) cs) (hperm : order.Perm cs) :
     lbTotalC aMax sMax (order.map (dF x y z k xs)) = .ok (dF x y z k xs (0, x / z)) := by
   refine lbTotalC_ok (dF_additive x y z k xs) (absF_additive _ _ _ _) (abs_dF_le x y z k xs) hch hperm ?_ ?_
-  · exact le_trans (absDF_le hxs hyz hk (0, x / z)) (by exact_mod_cast ha)
-  · have h3 := abs_le.1 (D_values_bounded x y z k xs k' hxs hyz hk (0, x / z))
+  · exact le_trans (absDF_le_range hxs hyz hj hk (0, x / z)) (by exact_mod_cast ha)
+  · have h3 := abs_le.1 (D_values_bounded x y z k xs j k' hxs hyz hj hk (0, x / z))
     unfold fitsS
-    have : ((x * k' : ℕ) : ℤ) ≤ (sMax : ℤ) := by exact_mod_cast hs
+    have : ((x * (k' - j) : ℕ) : ℤ) ≤ (sMax : ℤ) := by exact_mod_cast hs
     omega
 
 /-! non-vacuity (tests, labelled as such): the hypotheses hold on a concrete work item with two segments
     (x = 10^6, y = 100, z = 10^4, c = 4, `int64_t`), and the checks do report -/
 example : ∃ v, s2HardThreadC (2 ^ 63 - 1) (2 ^ 63 - 1) (refSieve (idealEnv 100 65535 100).primes) (idealEnv 100 65535 100)
     1000000 100 10000 4 240 2 240 = .ok v :=
-  ⟨_, S2_hard_thread_no_overflow (k := 14)
+  ⟨_, S2_hard_thread_no_overflow (j := 6) (k := 14)
     (fun K hK => ⟨refSieve_spec _ K (fun i h1 h2 => (idealEnv_ok 100 65535 100).primes_eq i h1 (le_trans h2 hK)), trivial⟩)
     (idealEnv_ok 100 65535 100)
     (by have : Nat.sqrt 100 = 10 := by norm_num [Nat.sqrt]
         rw [this]; norm_num)
     (idealEnv_factor_ok 100 65535 100 (by norm_num) (by norm_num [Nat.sqrt]))
     (by norm_num) (by norm_num) (by norm_num) (by norm_num) (by norm_num) (by norm_num) (by norm_num) (by norm_num)
-    (by norm_num) (by norm_num) (by norm_num)⟩
+    (by norm_num) (by norm_num) (by norm_num) (by norm_num)⟩
 example : LB.Chain 0 960 [(0, 480), (480, 960)] := by simp [LB.Chain]
 example : [(480, 960), (0, 480)].Perm ([(0, 480), (480, 960)] : List LB.Chunk) := List.Perm.swap _ _ _
 example : lbSumC 10 [7, -9, 5] 0 = .ok 3 := by decide
@@ -169,25 +172,25 @@ example : mulS 10 (-1) 12 = .error .ovfProd := by decide
 /-! ## A / C -/
 
 /-- **magnitude of `C` on ALL levels (kernels `C1` and `C2`)**: every sum of `Cterm` over any set of levels `i ≥ 1`, `p_i ≤ z` —
-    so every level-by-level partial sum — lies in `[−x·k, x·k]` when `z² < 2^k` -/
-theorem C_levels_bounded (x y z k : ℕ) (S : Finset ℕ) (hS : ∀ i ∈ S, 1 ≤ i ∧ Spec.p i ≤ z) (hk : z * z < 2 ^ k) :
-    |∑ i ∈ S, Spec.Cterm x y z i| ≤ ((x * k : ℕ) : ℤ) :=
-  Pc.Safety.C_levels_abs_le x y z k S hS hk
+    so every level-by-level partial sum — lies in `[−x·(k−j), x·(k−j)]` when `2^j ≤ z + 1`, `z² < 2^k` -/
+theorem C_levels_bounded (x y z j k : ℕ) (S : Finset ℕ) (hS : ∀ i ∈ S, 1 ≤ i ∧ Spec.p i ≤ z) (hj : 2 ^ j ≤ z + 1)
+    (hk : z * z < 2 ^ k) : |∑ i ∈ S, Spec.Cterm x y z i| ≤ ((x * (k - j) : ℕ) : ℤ) :=
+  Pc.Safety.C_levels_abs_le_range x y z j k S hS hj hk
 
 /-- **`AC_OpenMP`'s result after the conversion `uintN → intN`** (`A + C` accumulated modulo `2^N`): it is the true value
-    `A + C` whenever `12x + x·k < 2^(N−1)`, `z² < 2^k`, `w ≤ z` (`w = x⋆`).  `N = 128`: every `x ≤ 2^119`, `z < 2^63`
+    `A + C` whenever `12x + x·(k−j) < 2^(N−1)`, `2^j ≤ z + 1`, `z² < 2^k`, `w ≤ z` (`w = x⋆`).  `N = 128`: every `x ≤ 2^119`, `z < 2^63`
     (second statement) — FULL for primecount's range `x ≤ 10^31`.  `N = 64`: partial (`x ≲ 10^17`, see notes). -/
-theorem AC_return_value (bits x y z k0 w c3 k : ℕ) (hb : 1 ≤ bits) (hw : w ≤ z) (hk : z * z < 2 ^ k)
-    (hfit : 12 * x + x * k < 2 ^ (bits - 1)) :
+theorem AC_return_value (bits x y z k0 w c3 j k : ℕ) (hb : 1 ≤ bits) (hw : w ≤ z) (hj : 2 ^ j ≤ z + 1) (hk : z * z < 2 ^ k)
+    (hfit : 12 * x + x * (k - j) < 2 ^ (bits - 1)) :
     Pc.Safety.wrapS bits (Spec.A x y w c3 + Spec.C x y z k0 w) = Spec.A x y w c3 + Spec.C x y z k0 w := by
-  obtain ⟨h1, h2⟩ := Pc.Safety.AC_value_bounds x y z k0 w c3 k hw hk
-  have h3 : ((12 * x + x * k : ℕ) : ℤ) < ((2 ^ (bits - 1) : ℕ) : ℤ) := by exact_mod_cast hfit
+  obtain ⟨h1, h2⟩ := Pc.Safety.AC_value_bounds_range x y z k0 w c3 j k hw hj hk
+  have h3 : ((12 * x + x * (k - j) : ℕ) : ℤ) < ((2 ^ (bits - 1) : ℕ) : ℤ) := by exact_mod_cast hfit
   push_cast at h3
   apply Pc.Safety.wrapS_eq hb <;> push_cast at h1 h2 ⊢ <;> nlinarith
 
 theorem AC_return_value_128 (x y z k0 w c3 : ℕ) (hw : w ≤ z) (hz : z < 2 ^ 63) (hx : x ≤ 2 ^ 119) :
     Pc.Safety.wrapS 128 (Spec.A x y w c3 + Spec.C x y z k0 w) = Spec.A x y w c3 + Spec.C x y z k0 w := by
-  apply AC_return_value 128 x y z k0 w c3 126 (by norm_num) hw
+  apply AC_return_value 128 x y z k0 w c3 0 126 (by norm_num) hw (by omega)
   · have : z * z < 2 ^ 63 * 2 ^ 63 := Nat.mul_lt_mul'' hz hz
     norm_num at this ⊢; omega
   · norm_num; omega
